@@ -469,7 +469,7 @@ func c12Gen(c *Ctx) {
 		[4]int64{10, 1, 0, 0}, [4]int64{11, 0, 0, 0}, [4]int64{11, 2, 0, 0}, [4]int64{12, 0, 1, 2}, [4]int64{12, 1, 1, 2}, [4]int64{14, 0, 0, 0},
 		[4]int64{15, 0, 0, 0}, [4]int64{15, 1, 0, 9}, [4]int64{15, 2, 0, 1}, [4]int64{15, 3, 0, 0}, [4]int64{6, 1, 0, 0})
 	na := len(alpha)
-	L := c.N(2, 3)
+	L := c.N(3, 4)
 	total := 0
 	pow := 1
 	var sizes []int
@@ -496,7 +496,7 @@ func c12Gen(c *Ctx) {
 		t.Try("seq-exhaustive", in, l >= 2 && len(kinds) >= 2)
 	})
 	c.Note(fmt.Sprintf("sequential exhaustive part: all sequences of length <= %d over an alphabet of %d calls on keys {0,1}, each followed by Len + full Range", L, na))
-	c.Each(c.N(6000, 150000), func(i int, t *T) {
+	c.Each(c.N(15000, 300000), func(i int, t *T) {
 		if tooMany() {
 			return
 		}
@@ -536,7 +536,7 @@ func c12Gen(c *Ctx) {
 		c.Note("concurrent histories skipped: earlier failures (a data race on a Go map may abort the process)")
 		return
 	}
-	c.Each(c.N(6000, 120000), func(i int, t *T) {
+	c.Each(c.N(40000, 600000), func(i int, t *T) {
 		if tooMany() {
 			return
 		}
